@@ -100,7 +100,14 @@ RULE = (
     "github.io, fr, blogspot.com.au, s3.amazonaws.com; every 6th / 20th in thorough): the ancestors of the rule inside "
     "the suffix, the wildcard parent, the excepted host, a child, a grandchild and an upper-case spelling of it, a fresh "
     "sibling under the wildcard (a public suffix itself) with child and grandchild, every label that continues the "
-    "parent in another rule with a child; each host of a family as u (bare) against the whole family (bare and with "
+    "parent in another rule with a child; and the IDN rules (rules holding a non-ASCII or an xn-- label: the six fixed "
+    "ones 公司.cn, xn--p1ai, рф, xn--mgba3a4f16a.ir, aéroport.ci, אקדמיה.ישראל + every 15th multi-label Unicode rule + every "
+    "50th single-label Unicode / ACE rule; every 2nd / 4th in thorough) in EVERY SPELLING (as listed, all labels "
+    "ACE-encoded, all ACE labels decoded, only the first IDN label re-spelled; RFC 3492 by CPython's punycode codec), one "
+    "family per spelling: ancestors inside the rule, the rule, a child of each kind {ASCII, raw Unicode, valid ACE, "
+    "undecodable ACE, upper-case ACE prefix}, grandchildren mixing an undecodable / raw label with decodable ones on "
+    "either side, the other spellings with a child (look-alike non-ancestors); each host of a family as u (bare) "
+    "against the whole family (bare and with "
     "/a?q=1), both modes. For these cases NO answer of the real split_suffix is shipped to the model: op lru_pairs_psl "
     "computes the stems with the model of suffix_trie.py on the trie built from the regenerated list "
     "(Lru.pslSplitT) and also returns its split of every host, SameSuffixSplit, outsideSuffixT and dnsName — compared "
@@ -112,8 +119,8 @@ RULE = (
     "+ accessors, lru_stems(u), url_to_lru(u), both modes) and must agree with CPython / ural."
 )
 EXHAUSTIVE = {
-    "quick": "all 82,944 ordered pairs of the 288-URL mini universe (2 schemes x 2 ports x hosts {com, a.com, www.a.com, co.uk, a.co.uk, uk} x paths {'', '/', '/a', '/a/b'} x extras {'', '?q=1', '#f'}) x suffix_aware in {False, True}; all ordered host pairs of the family of EVERY exception rule and EVERY wildcard rule of the regenerated public suffix list (and of about 150 plain rules) x {bare, with path and query} x suffix_aware in {False, True}",
-    "thorough": "all 82,944 ordered pairs of the 288-URL mini universe (as in quick) x suffix_aware in {False, True}; the public-suffix-list families as in quick with about 1,500 plain rules; the 7,600-URL universe is sampled (about 3.6 million pairs)",
+    "quick": "all 82,944 ordered pairs of the 288-URL mini universe (2 schemes x 2 ports x hosts {com, a.com, www.a.com, co.uk, a.co.uk, uk} x paths {'', '/', '/a', '/a/b'} x extras {'', '?q=1', '#f'}) x suffix_aware in {False, True}; all ordered host pairs of the family of EVERY exception rule and EVERY wildcard rule of the regenerated public suffix list (and of about 150 plain rules, and of about 30 IDN rules in every spelling x child labels {ASCII, raw Unicode, valid ACE, undecodable ACE, upper-case ACE prefix}) x {bare, with path and query} x suffix_aware in {False, True}; the subdomain law of the real split_suffix on every (host, subdomain) pair of these families",
+    "thorough": "all 82,944 ordered pairs of the 288-URL mini universe (as in quick) x suffix_aware in {False, True}; the public-suffix-list families as in quick with about 1,500 plain rules and about 240 IDN rules; the 7,600-URL universe is sampled (about 3.6 million pairs)",
 }
 TRUSTED = [
     t
@@ -126,7 +133,7 @@ TRUSTED = [
     for t in B.TRUSTED
 ]
 ASSUMPTIONS = [
-    "C08 clause used as hypothesis (SplitLaw: the host the suffix-aware stems spell — the two parts of split_suffix, a lone leading dot, the trailing dots — is the lower-cased host; follows from C08's split_rejoin 'the two parts re-join to the lower-cased hostname without its trailing dots' on every netloc of the grammar: C12.splitRejoins_of_c08) by the theorems with an abstract split_suffix; C08's clause is checked on every URL of this run, hosts with trailing dots / a leading dot included. The *_psl theorems assume nothing about split_suffix (it is the model of suffix_trie.py on the regenerated list: splitLaw_psl, sameSuffixSplit_of_outside, split_nobar_psl); what ties them to the code is the per-run obligation that the real split_suffix answers like that model on every host of the public-suffix-list families and of the corpus (op lru_pairs_psl, a disagreement is a broken correspondence)",
+    "C08 clause used as hypothesis (SplitLaw: the host the suffix-aware stems spell — the two parts of split_suffix, a lone leading dot, the trailing dots — is the lower-cased host; follows from C08's split_rejoin 'the two parts re-join to the lower-cased hostname without its trailing dots' on every netloc of the grammar: C12.splitRejoins_of_c08) by the theorems with an abstract split_suffix; C08's clause is checked on every URL of this run, hosts with trailing dots / a leading dot included. The *_psl theorems assume nothing about split_suffix (it is the model of suffix_trie.py on the regenerated list: splitLaw_psl, sameSuffixSplit_of_outside, split_nobar_psl); what ties them to the code is the per-run obligation that the real split_suffix answers like that model on every host of the public-suffix-list families and of the corpus (op lru_pairs_psl, a disagreement is a broken correspondence); the families include the IDN rules of the list in every spelling (as listed, ACE, decoded, mixed) with ASCII / raw-Unicode / valid-ACE / undecodable-ACE / upper-case-ACE child labels, and the law the forward theorem draws from the list algorithm (hostLen_subdomain: a subdomain whose public suffix has fewer labels than the parent host leaves the parent the same public suffix) is also evaluated on the REAL split_suffix over every (host, subdomain) pair of the families (run_obligations: broken obligation `law`)",
     "reading: 'subdomain' = whole-label suffix of the dotted host between DNS names (an IPv4 literal / bracketed literal has no subdomains: hypothesis NamesOrEqual); 'extends / may add' presuppose that u has nothing later in the hierarchy host -> path -> query -> fragment; the forward law is demanded for u without userinfo (userinfo stems come last; the quantifier's universe has none); empty path stems aside = clean_trailing_path on both sides; suffix-aware converse compares hosts lower-cased; 'DNS name', 'IP literal' and 'public suffix' are read by the oracle independently of ural (narrow special-host definition and the publicsuffix.org algorithm scanned over the regenerated list, harness/props/C08.py), never from is_special_host / split_suffix",
     "reading of the clause 'the serialized LRU of u is a string prefix of that of v': for the string url_to_lru RETURNS (empty path stems kept) it is demanded — and proved — when v's path segments read as they are, empty ones included, extend u's (UnderRaw; implies Under); with 'empty path stems aside' carried over from the first clause it is stated — and proved — for serialize_lru(clean_trailing_path(lru_stems(.))), a string no ural function returns. For url_to_lru under plain Under it is FALSE (url_to_lru('http://a.com/') = 's:http|h:com|h:a|p:|' is no prefix of url_to_lru('http://a.com/x') = 's:http|h:com|h:a|p:x|': theorem raw_lru_not_prefix_witness) and not demanded",
 ]
@@ -308,6 +315,94 @@ def plain_family(rule):
     return _dedup(_suffixes(labels) + [rule, "a." + rule, "b.a." + rule, "c.b.a." + rule])
 
 
+# --------------------------------------------------------------------------------------
+# IDN rules (seed C13-6): the list spells most IDN rules in Unicode (`公司.cn`), the single-label IDN TLDs in both
+# forms (`рф`, `xn--p1ai`), a few multi-label ones in ACE (`xn--mgba3a4f16a.ir`).  suffix_trie.py compares labels
+# as strings, so where the suffix boundary falls depends on the trailing labels as they are spelled — whatever
+# stands to the left.  A split that decodes / encodes labels (the WHOLE host at once, say) breaks that as soon as
+# one label further left is undecodable or in the other spelling.  Hence, for every sampled rule holding a
+# non-ASCII or an `xn--` label: the rule in every spelling (as listed, all labels ACE-encoded, all ACE labels
+# decoded, only the first IDN label re-spelled) x child labels of the five kinds below x grandchildren.
+# --------------------------------------------------------------------------------------
+IDN_RAW = "\u4f8b"  # a raw Unicode label ...
+
+
+def _ace(label):
+    """the ACE spelling of a non-ASCII label by RFC 3492 alone (CPython's `punycode` codec: no nameprep, no
+    ural function); an ASCII label is returned as it is"""
+    if label.isascii():
+        return label
+    return "xn--" + label.encode("punycode").decode("ascii")
+
+
+def _unace(label):
+    """the label an `xn--` label encodes, None when RFC 3492 decoding fails / it is no ACE label"""
+    if not label.startswith("xn--"):
+        return None
+    try:
+        u = label[4:].encode("ascii").decode("punycode")
+    except (UnicodeError, ValueError):
+        return None
+    return u if u and not u.isascii() and u.lower() == u else None
+
+
+def _undecodable_ace():
+    """an `xn--` label that neither RFC 3492 nor CPython's idna codec decodes (derived, not assumed)"""
+    for tail in ("ii", "a-", "zz", "99", "-"):
+        lab = "xn--" + tail
+        try:
+            lab[4:].encode("ascii").decode("punycode")
+            lab.encode("ascii").decode("idna")
+        except (UnicodeError, ValueError):
+            return lab
+        except Exception:  # noqa
+            return lab
+    return "xn--ii"
+
+
+IDN_ACE = _ace(IDN_RAW)  # ... its valid ACE spelling (xn--fsq) ...
+IDN_BAD = _undecodable_ace()  # ... an ACE-looking label that decodes to nothing ...
+IDN_CHILDREN = ["shop", IDN_RAW, IDN_ACE, IDN_BAD, "XN--" + IDN_ACE[4:].upper()]  # ... and an upper-case ACE prefix
+IDN_ALWAYS = ["\u516c\u53f8.cn", "xn--p1ai", "\u0440\u0444", "xn--mgba3a4f16a.ir", "a\u00e9roport.ci", "\u05d0\u05e7\u05d3\u05de\u05d9\u05d4.\u05d9\u05e9\u05e8\u05d0\u05dc"]
+
+
+def is_idn_rule(r):
+    return (not r.isascii()) or any(l.startswith("xn--") for l in r.lstrip("!").split("."))
+
+
+def idn_spellings(rule):
+    """the rule's labels as listed, fully ACE-encoded, fully decoded, and with only its first IDN label in the
+    other spelling (a host mixing the two spellings inside the suffix)"""
+    labels = rule.split(".")
+    enc = [_ace(l) for l in labels]
+    dec = [(_unace(l) or l) for l in labels]
+    mixed = list(labels)
+    for i, l in enumerate(labels):
+        o = _ace(l) if not l.isascii() else (_unace(l) or l)
+        if o != l:
+            mixed[i] = o
+            break
+    out = []
+    for ls in (labels, enc, dec, mixed):
+        if ls not in out:
+            out.append(ls)
+    return out
+
+
+def idn_family(labels, others):
+    """one spelling of an IDN rule: its ancestors, the rule, a child of every kind (ASCII, raw Unicode, valid ACE,
+    undecodable ACE, upper-case ACE prefix), grandchildren that put an undecodable / raw label left of a decodable
+    one and vice versa; the other spellings of the rule with one child each (never ancestors of these: the
+    converse)"""
+    r = ".".join(labels)
+    hosts = _suffixes(labels) + [r] + [c + "." + r for c in IDN_CHILDREN]
+    hosts += [g + "." + c + "." + r for g, c in ((IDN_RAW, "shop"), (IDN_BAD, "shop"), ("shop", IDN_BAD), (IDN_ACE, IDN_RAW), (IDN_RAW, IDN_ACE))]
+    hosts.append(IDN_BAD + "." + IDN_RAW + ".shop." + r)
+    for o in others:
+        hosts += [".".join(o), "shop." + ".".join(o)]
+    return _dedup(hosts)
+
+
 _psl_memo = {}
 
 
@@ -320,10 +415,10 @@ def psl_families(tier):
     rules, idx = t["rules"], t["index"]
     fams = []
     for r in rules:
-        if r.startswith("!") and r.isascii():
+        if r.startswith("!") and "" not in r[1:].split("."):
             fams.append(("exc", r, exception_family(r, idx)))
     for r in rules:
-        if "*" in r and not r.startswith("!") and r.isascii():
+        if "*" in r and not r.startswith("!") and "" not in r.split("."):
             fams.append(("wild", r, wildcard_family(r, idx)))
     # (the bundled list has a line with a trailing dot, `xn--4dbgdty6c.xn--4dbrk0ce.`: no hostname can match it,
     # and a host spelled with a trailing dot is outside the suffix-aware theorems — dnsName)
@@ -333,6 +428,20 @@ def psl_families(tier):
     picked = [r for r in PLAIN_ALWAYS if r in plain] + multi[::step_m] + [r for r in plain if "." not in r][::step_s]
     for r in _dedup(picked):
         fams.append(("plain", r, plain_family(r)))
+    # IDN rules: every k-th rule holding a non-ASCII label (multi-label ones: only they can be re-spelled into
+    # something the list does not hold) / an `xn--` label, in every spelling
+    idn = [r for r in rules if is_idn_rule(r) and "*" not in r and not r.startswith("!") and "" not in r.split(".")]
+    uni_m = [r for r in idn if not r.isascii() and "." in r]
+    uni_s = [r for r in idn if not r.isascii() and "." not in r]
+    ace = [r for r in idn if r.isascii()]
+    k_m, k_s, k_a = (15, 50, 50) if tier == "quick" else (2, 4, 4)
+    for r in _dedup([x for x in IDN_ALWAYS if x in idn] + uni_m[::k_m] + uni_s[::k_s] + ace[::k_a]):
+        sp = idn_spellings(r)
+        for ls in sp:
+            hs = idn_family(ls, [o for o in sp if o != ls])
+            # (`рф` and `xn--p1ai` are both listed: the same families twice)
+            if not any(k == "idn" and h == hs for k, _, h in fams):
+                fams.append(("idn", r, hs))
     _psl_memo[tier] = fams
     return fams
 
@@ -701,6 +810,67 @@ def forward_demanded(hu, hv):
     """suffix-aware mode: is the pair outside the region of KF-C13-1 ("the ancestor lies inside the
     public suffix of the descendant and the two public suffixes differ")?  Decided from the list."""
     return hu == hv or list_same_suffix(hu, hv) or (dns_name(hu) and dns_name(hv) and list_outside(hu, hv))
+
+
+# --------------------------------------------------------------------------------------
+# per-run law on the REAL split_suffix (reported as a broken obligation `law`): the real-function instance of
+# Ural.Props.C13.hostLen_subdomain / sameSuffixSplit_of_outside, the fact the suffix-aware forward theorem rests
+# on — "where the suffix boundary falls is decided by the trailing labels": if the public suffix of a subdomain
+# pre.h has fewer labels than h (or pre.h has none), then h has the very same public suffix (or none).
+# Implementation only (no model, no list): whatever rule list and matching discipline split_suffix uses, a
+# split that lets a label further LEFT move the boundary (seed C13-6: the whole host decoded at once) fails it.
+# --------------------------------------------------------------------------------------
+RUN_OBLIGATIONS = (
+    "subdomain law of the real ural.tld.split_suffix (the real-function instance of hostLen_subdomain): for every "
+    "ordered pair (h, pre.h) of DNS names of every public-suffix-list family of this run (exception, wildcard, "
+    "sampled plain and IDN rules in every spelling): if the suffix split_suffix gives pre.h has fewer labels than "
+    "h, or it gives none, split_suffix gives h the same suffix / none"
+)
+
+
+def _real_suffix(h):
+    lib.ural()
+    from ural.tld import split_suffix
+
+    r = split_suffix(h)
+    return None if r is None else r[1]
+
+
+def subdomain_law_failures(families, limit=6):
+    msgs, n, memo = [], 0, {}
+
+    def suf(h):
+        if h not in memo:
+            memo[h] = _real_suffix(h)
+        return memo[h]
+
+    for kind, rule, hosts in families:
+        hs = [h for h in hosts if dns_name(h) and not P.oracle_special(h)]
+        for hu in hs:
+            for hv in hs:
+                if not strict_sub(hu, hv):
+                    continue
+                n += 1
+                sv = suf(hv)
+                if sv is None or len(sv.split(".")) < len(hu.split(".")):
+                    su = suf(hu)
+                    if su != sv:
+                        if len(msgs) < limit:
+                            msgs.append(
+                                "subdomain law of split_suffix (family of rule %s): split_suffix(%r) has the suffix %r, which "
+                                "lies inside %r, but split_suffix(%r) has the suffix %r" % (rule, hv, sv, hu, hu, su)
+                            )
+                        else:
+                            msgs.append(None)
+    if msgs:
+        k = len(msgs)
+        msgs = [m for m in msgs if m is not None]
+        msgs[0] = "%d of %d (host, subdomain) pairs fail; first: %s" % (k, n, msgs[0])
+    return msgs, n
+
+
+def run_obligations(tier="quick"):
+    return subdomain_law_failures(psl_families(tier), limit=2)[0]
 
 
 KF_MARK = "[ancestor inside the public suffix: by the public suffix list the two hosts do not have the same suffix]"
